@@ -49,7 +49,8 @@ func VerifC03Raw(n int) {
 	verifReach("end")
 }
 
-// VerifC03Message: a message (relay != 0: relay-forward wrapping it) with one option of known code
+// VerifC03Message: a message (relay = 1: relay message wrapping it; 2: relay message holding the
+// option itself and no relay-message option; 3: the latter relayed once more) with one option of known code
 // #idx (or an unknown code) and an n-byte symbolic payload, decoded from the wire, then used.
 func VerifC03Message(idx, n, relay int) {
 	code := uint16(60000)
@@ -61,12 +62,23 @@ func VerifC03Message(idx, n, relay int) {
 	wire = append(wire, payload...)
 	verifAssume(wire[0] != 12)
 	verifAssume(wire[0] != 13)
-	if relay != 0 {
+	relayHdr := func() []byte {
 		hdr := append([]byte{verifU8("relaytype"), verifU8("hops")}, verifBytes("addrs", 32)...)
 		verifAssume(hdr[0] >= 12)
 		verifAssume(hdr[0] <= 13)
-		hdr = append(hdr, 0, 9, byte(len(wire)>>8), byte(len(wire)))
-		wire = append(hdr, wire...)
+		return hdr
+	}
+	wrap := func(inner []byte) []byte {
+		hdr := append(relayHdr(), 0, 9, byte(len(inner)>>8), byte(len(inner)))
+		return append(hdr, inner...)
+	}
+	switch relay {
+	case 1: // relay-forward/reply wrapping the message
+		wire = wrap(wire)
+	case 2: // the option sits directly in a relay message that has no relay-message option
+		wire = append(relayHdr(), wire[4:]...)
+	case 3: // ... and that relay message is itself relayed once more
+		wire = wrap(append(relayHdr(), wire[4:]...))
 	}
 	d, err := FromBytes(wire)
 	if err != nil {
